@@ -164,6 +164,21 @@ impl Minimizer {
             c.heap_perturb = 0;
             self.try_accept(cur, c);
         }
+        if cur.log_level.is_some() {
+            let mut c = cur.clone();
+            c.log_level = None;
+            self.try_accept(cur, c);
+        }
+        {
+            let n = Self::each_call_mut(&mut cur.clone()).len();
+            for idx in 0..n {
+                if Self::each_call_mut(&mut cur.clone())[idx].log_level.is_some() {
+                    let mut c = cur.clone();
+                    Self::each_call_mut(&mut c)[idx].log_level = None;
+                    self.try_accept(cur, c);
+                }
+            }
+        }
         // preemption granularities the violation does not need
         if cur.alloc_yield_mean > 0 {
             let mut c = cur.clone();
@@ -183,6 +198,7 @@ impl Minimizer {
         if cur.atomic_hold_mean > 0 {
             let mut c = cur.clone();
             c.atomic_hold_mean = 0;
+            c.atomic_focus = 0;
             self.try_accept(cur, c);
         }
         let n = Self::each_call_mut(&mut cur.clone()).len();
